@@ -38,7 +38,7 @@ $r"
         if (cd /verif && ./check $c 2>&1 | grep -q "^VIOLATION property=$c"); then echo "== $b: fired $c"; else echo "== $b: MISSED by $c"; fi
       done
     fi
-    git -C $W/repo checkout -q -- .
+    git -C $W/repo checkout -q -- . && git -C $W/repo clean -fdq
   done
   git -C /repo worktree remove --force $W/repo
 }
